@@ -36,6 +36,9 @@ type C10Plan struct {
 	// Wire: the position is an encrypted message and the corruption is applied
 	// to its COSE wrapper on the wire instead of to the plaintext inside.
 	Wire bool `json:"wire,omitempty"`
+	// Partial: every node serves only the protocols of its role (manufacturer
+	// DI, rendezvous TO0+TO1, owner TO2); the other responders are absent.
+	Partial bool `json:"partial,omitempty"`
 }
 
 type c10Pos struct {
@@ -83,7 +86,8 @@ var c10CipherIDs = func() []int64 {
 }()
 
 var c10HTTPFaults = []string{"no-content-length", "huge-content-length", "short-content-length", "bad-auth-scheme", "garbage-token", "other-protocol-token",
-	"method-get", "path-unknown-msg", "path-nested", "path-not-number", "msg-255-garbage", "msg-255-valid", "empty-body", "resp-bad-msgtype-header", "resp-status-418", "resp-huge-content-length", "resp-no-content-type"}
+	"method-get", "path-unknown-msg", "path-nested", "path-not-number", "msg-255-garbage", "msg-255-valid", "empty-body", "resp-bad-msgtype-header", "resp-status-418", "resp-huge-content-length", "resp-no-content-type",
+	"msg-255-prev-10", "msg-255-prev-20", "msg-255-prev-30", "msg-255-prev-60", "msg-255-prev-0", "msg-255-prev-99", "path-other-proto-10", "path-other-proto-20", "path-other-proto-30", "path-other-proto-60"}
 
 type c10 struct {
 	plans map[string][]C10Plan
@@ -209,6 +213,11 @@ func (p *c10) Prepare(t *testing.T, tier string, seed uint64) {
 				if !pos.inTunnel() && !pos.Wire {
 					for hi := range c10HTTPFaults {
 						plans = append(plans, C10Plan{Seed: base.Seed, Key: f.Key, Enc: f.Enc, Sql: hi%2 == 1 && fi == 0, Proto: proto, Phase: pos.Phase, Msg: pos.Msg, Occur: pos.Occur, Kind: "http", Ord: hi})
+						if pos.Phase == "req" {
+							// the same damage against a deployment where each service
+							// runs only the responders of its role
+							plans = append(plans, C10Plan{Seed: base.Seed, Key: f.Key, Enc: f.Enc, Sql: hi%2 == 0 && fi == 0, Proto: proto, Phase: pos.Phase, Msg: pos.Msg, Occur: pos.Occur, Kind: "http", Ord: hi, Partial: true})
+						}
 					}
 				}
 			}
@@ -500,6 +509,13 @@ func c10Run(env *Env, pl *C10Plan, collect map[c10Pos][]byte, baseAlloc uint64) 
 	s, cleanup := NewStdSql(nil, cfg, sqlNodes)
 	defer cleanup()
 	s.Net.MaxMsgs = 600
+	if pl.Partial {
+		for name, roles := range map[string][]string{"mfg": {"DI"}, "rv": {"TO0", "TO1"}, "owner1": {"TO2"}, "owner2": {"TO2"}} {
+			if n := s.Nodes[name]; n != nil {
+				n.Roles = roles
+			}
+		}
+	}
 	rec := &ModRecorder{}
 	o1 := s.Nodes["owner1"]
 	o1.Mods = &ModSM{Factory: PingFactory(o1, rec, [][]byte{[]byte("first-owner-message"), bytes.Repeat([]byte{0x5a}, 300)})}
@@ -865,6 +881,16 @@ func c10HTTP(kind string, ev *NetEvent, otherTok string) {
 		ev.Body = b
 	case "empty-body":
 		ev.Body = nil
+	case "msg-255-prev-10", "msg-255-prev-20", "msg-255-prev-30", "msg-255-prev-60", "msg-255-prev-0", "msg-255-prev-99":
+		// an error report that names a message of another (possibly unserved
+		// or unknown) protocol
+		var prev int
+		fmt.Sscanf(strings.TrimPrefix(kind, "msg-255-prev-"), "%d", &prev)
+		ev.Path = "/fdo/101/msg/255"
+		b, _ := cbor.Marshal(protocol.ErrorMessage{Code: 100, PrevMsgType: uint8(prev), ErrString: "x"})
+		ev.Body = b
+	case "path-other-proto-10", "path-other-proto-20", "path-other-proto-30", "path-other-proto-60":
+		ev.Path = "/fdo/101/msg/" + strings.TrimPrefix(kind, "path-other-proto-")
 	case "resp-bad-msgtype-header":
 		ev.RespType = 999
 	case "resp-status-418":
